@@ -715,6 +715,10 @@ class Benham:
                  votes: Dict[RankedVoteType, int],
                  n_seats: int = 1) -> List[Candidate]:
         assert n_seats == 1
+        candidates = votelib.util.all_ranked_candidates(votes)
+        if len(candidates) == 1:
+            # a lone candidate has no pairwise contest and takes the seat
+            return candidates
         current_votes = votes
         condowin = self.get_condorcet_winner(current_votes)
         while condowin is None:
